@@ -985,6 +985,25 @@ pub fn gen_script(rng: &mut Rng, ctx: &Ctx, mix: &Mix, max_len: usize, end: EndS
             });
         }
     }
+    if mix.garbage > 0 && rng.chance(1, 40) {
+        // A long run of rejected lines in a row (a wrong file pasted into the debugger), and a
+        // command with an effect right behind it
+        let at = rng.usize_below(items.len() + 1);
+        let run = 18 + rng.usize_below(30);
+        let mut burst: Vec<Item> = (0..run)
+            .map(|_| Item {
+                cmd: Cmd::Garbage(gen_garbage(rng)),
+                spell: rng.next_u64(),
+            })
+            .collect();
+        if mix.mv > 0 {
+            burst.push(Item {
+                cmd: Cmd::Move(Target::Reg(rng.below(8) as u8), gen_value(rng)),
+                spell: rng.next_u64(),
+            });
+        }
+        items.splice(at..at, burst);
+    }
     match end {
         EndStyle::Eof => {}
         EndStyle::Quit => items.push(Item {
